@@ -79,3 +79,26 @@ Fixpoint perm_eqb {B} (eqb : B -> B -> bool) (a b : list B) : bool :=
 
 Definition Mb (f : vframe) (key : list (list bool)) := M_bloc f key.
 Definition Sb (f : vframe) (key : list (list bool)) := S_bloc (abs_frame f) key.
+
+(* ---- select, then select by label on the result (api:select-then-loc) ----
+   S: the derived container is what the specification says the first selection returns; .loc on it is label
+   lookup in ITS labels.  M (second step): the observed derived container with the translation chosen by the
+   model decision derived_kind. *)
+Definition Sx2 (f : vframe) (rk ck : ckey) (rkey ckey_ : lkey val) : vres :=
+  match Sx f rk ck with
+  | Ok (XFrame i c d n) => S_extract_loc val_eqb rdt_val (mk_sframe i c d n) rkey ckey_
+  | Ok (XSeries i v d n) => S_series_loc val_eqb (mk_sseries i v d n) rkey
+  | Ok (XElem _) => Err "element"
+  | Err e => Err e
+  end.
+
+Definition Ss2 (s : vseries) (k : ckey) (key : lkey val) : vres :=
+  match Ssi s k with
+  | Ok (XSeries i v d n) => S_series_loc val_eqb (mk_sseries i v d n) key
+  | Ok _ => Err "element"
+  | Err e => Err e
+  end.
+
+Definition Mxl2 (kr kc : axkind) (rk ck : ckey) (derived : vframe) (rkey ckey_ : lkey val) : vres :=
+  Mxl (derived_kind true rk kr) (derived_kind true ck kc) derived rkey ckey_.
+Definition Msl2 (derived : vseries) (key : lkey val) : vres := Msl KMap derived key.
